@@ -41,7 +41,8 @@ Min2(a, b) == IF a < b THEN a ELSE b
 HN(v) == IF v = Target THEN 0 ELSE H(v)       \* target_ is constructed with h = 0
 KeyLess(a, b) == IF a[1] # b[1] THEN a[1] < b[1] ELSE a[2] < b[2]
 
-St == [g |-> g, r |-> r, par |-> par, flag |-> flag, key |-> key, q |-> q, hang |-> FALSE]
+St == [g |-> g, r |-> r, par |-> par, flag |-> flag, key |-> key, q |-> q, hang |-> FALSE,
+       over |-> 0, under |-> 0]     \* ghosts: heads expanded as over- / underconsistent by this search
 CalcKey(st, v) == <<Min2(st.g[v], Plus(st.r[v], HN(v))), Min2(st.g[v], st.r[v])>>
 
 (* ---------------------------- queue utilities ---------------------------- *)
@@ -104,9 +105,10 @@ Orphan(st, G, ins, u, s) ==
 
 Expand(st, G, outs, ins, u) ==
     IF st.g[u] > st.r[u]
-    THEN LET st1 == [st EXCEPT !.g[u] = st.r[u], !.flag[u] = FALSE, !.q = Tail(st.q)]   \* popHead
+    THEN LET st1 == [st EXCEPT !.g[u] = st.r[u], !.flag[u] = FALSE, !.q = Tail(st.q),   \* popHead
+                               !.over = @ + 1]
          IN  Offer(st1, G, u, outs[u])
-    ELSE LET st1 == UpdateVertex([st EXCEPT !.g[u] = INF], u)
+    ELSE LET st1 == UpdateVertex([st EXCEPT !.g[u] = INF, !.under = @ + 1], u)
          IN  Orphan(st1, G, ins, u, outs[u])
 
 RECURSIVE Loop(_, _, _, _, _)
@@ -136,7 +138,7 @@ ComputeResult(st) ==
 Install(st) == /\ g' = st.g /\ r' = st.r /\ par' = st.par /\ flag' = st.flag
                /\ key' = st.key /\ q' = st.q
 Drop(s, x) == SelectSeq(s, LAMBDA y : y # x)
-NoRes == [fresh |-> FALSE, cost |-> 0, path |-> <<>>, hang |-> FALSE]
+NoRes == [fresh |-> FALSE, cost |-> 0, path |-> <<>>, hang |-> FALSE, over |-> 0, under |-> 0]
 
 Init == /\ CInit
         /\ g = [v \in VN |-> INF] /\ r = [v \in VN |-> INF] /\ par = [v \in VN |-> -1]
@@ -181,7 +183,8 @@ ICompute ==
     /\ CCompute
     /\ LET cr == ComputeResult(St)
        IN  /\ Install(cr.st)
-           /\ res' = [fresh |-> TRUE, cost |-> cr.cost, path |-> cr.path, hang |-> cr.st.hang]
+           /\ res' = [fresh |-> TRUE, cost |-> cr.cost, path |-> cr.path, hang |-> cr.st.hang,
+                    over |-> cr.st.over, under |-> cr.st.under]
     /\ UNCHANGED <<inc, inI>>
 
 Bounded == MaxLen = 0 \/ len < MaxLen
@@ -234,6 +237,13 @@ SearchPostcondition ==
         /\ g[Target] = r[Target]
         /\ q # <<>> => ~KeyLess(key[q[1]], CalcKey(St, Target))
 
-(* vacuity: kinds of head the search expanded are visible in the state (g lowered / raised) *)
-LView == <<nv, wt, up, g, r, par, flag, key, q, inc, inI, res, len>>
+(* reachability probes (vacuity gates): each of these is expected to be VIOLATED *)
+ProbeNoOverconsistentHead == res.over = 0
+ProbeNoUnderconsistentHead == res.under = 0
+ProbeNoMixedSearch == ~(res.over > 0 /\ res.under > 0)
+ProbeNeverUnreachable == ~(res.fresh /\ res.cost = INF /\ Cardinality(Arcs(wt)) > 0)
+ProbeNoTieInQueue == \A i \in 1..Len(q) - 1 : key[q[i]] # key[q[i + 1]]
+
+LView == <<nv, wt, up, g, r, par, flag, key, q, inc, inI, res.fresh, res.cost, res.path, res.hang, len>>
+LViewProbe == <<nv, wt, up, g, r, par, flag, key, q, inc, inI, res, len>>
 ==============================================================================
